@@ -2,8 +2,6 @@ package c19
 
 import (
 	"fmt"
-	"math"
-	"strconv"
 	"strings"
 
 	jm "verif/ref/jsonmodel"
@@ -295,6 +293,3 @@ func kindOf(o outcome) string {
 	}
 	return "other"
 }
-
-var _ = math.Inf
-var _ = strconv.Itoa
